@@ -54,7 +54,7 @@ def run_model(exe, cases, scratch, parts=6):
         with open(p, "w") as f:
             f.write("\n".join(lines[i * step:(i + 1) * step]) + "\n")
         procs.append(subprocess.Popen([exe, p], stdout=subprocess.PIPE, stderr=subprocess.STDOUT))
-    total, mism, out, kinds = 0, 0, [], {}
+    total, mism, out, kinds, ends = 0, 0, [], {}, []
     ok = True
     for pr in procs:
         try:
@@ -63,6 +63,7 @@ def run_model(exe, cases, scratch, parts=6):
             pr.kill()
             o = "[model driver timeout]"
         m = re.search(r"CASES (\d+) MISMATCHES (\d+)", o)
+        ends.extend(int(x) for x in re.findall(r"CASES-END (\d+)", o))
         if not m or pr.returncode != 0:
             ok = False
             out.append(o[-800:])
@@ -73,6 +74,10 @@ def run_model(exe, cases, scratch, parts=6):
             kinds[k] = kinds.get(k, 0) + int(v)
         if int(m.group(2)):
             out.append(o[:1500])
+    # the END marker (written last by the harness, with its own count) must have been reached exactly once
+    if len(ends) != 1 or ends[0] != total:
+        ok = False
+        out.append("END marker of the case file: %r, cases compared: %d" % (ends, total))
     return ok, total, mism, kinds, "\n".join(out)
 
 
@@ -109,7 +114,9 @@ def coq_case(line):
         return "XN [%s] %s %s" % ("; ".join(vs), coq_z(f[3 + 2 * cnt]), coq_z(o[0]))
     if f[0] == "E":
         ops = []
-        for t in f[1:]:
+        keep = [i for i, t in enumerate(f[1:]) if t[0] not in "KGO"]   # foreign edits: no-ops for the model, skipped
+        o = [o[i] for i in keep]
+        for t in [f[1:][i] for i in keep]:
             q = t.split(":")
             ops.append({"A": lambda: "EAdd %s %s" % (coq_z(q[1]), coq_z(q[2])), "R": lambda: "ERemove %s" % coq_z(q[1]),
                         "M": lambda: "ESetMin %s" % coq_z(q[1]), "U": lambda: "EUpdate %s %s" % (coq_z(q[1]), coq_z(q[2])),
@@ -128,6 +135,8 @@ def vm_cross_check(ctx, cases_path, per_kind=90):
     by = {}
     for line in open(cases_path):
         line = line.rstrip("\n")
+        if line.startswith("END "):
+            continue
         k = line[:3] if line.startswith("D ") else line[:1]
         by.setdefault(k, []).append(line)
     terms = []
@@ -151,6 +160,8 @@ def vm_cross_check(ctx, cases_path, per_kind=90):
 
 def run(ctx):
     ctx.level = "proof"
+    # floor on the cases judged and compared with the model (about half of a normal run)
+    ctx.min_evaluations = 2000000 if ctx.tier == "thorough" else 200000
     status = vlib.proof_status(PID, extra_targets=["C03/Extract.v", "C03/CrossCheck.v"])
     ctx.proof_gate(status)
     drv = vlib.build_ocaml_driver("c03_driver", os.path.join(vlib.COQ, "extracted"),
@@ -183,7 +194,9 @@ def run(ctx):
         case, detail = d.split(" ## ", 1)
         ctx.violation(sig, "C03 fails on the implementation: %s  [case: %s]" % (detail, case),
                       {"case": case, "detail": detail, "how": "./check C03 --replay <this file>"})
-    if (not ok or mism != 0 or total != summ.get("cases", -1)) and not summ["propfail"]:
+    # known hits must never suppress a model mismatch: only NEW property failures explain one
+    new_fail = [sg for sg in summ["propfail"] if not any(k["signature"] == sg for k in ctx.known_open)]
+    if (not ok or mism != 0 or total != summ.get("cases", -1)) and not new_fail:
         ctx.violation("c03-correspondence",
                       "model and implementation disagree on %s of %s case(s) (by kind %s) although no property predicate "
                       "failed; the theorems of Properties/C03.v no longer speak about this code: %s"
